@@ -1918,3 +1918,52 @@ Proof.
     rewrite Forall_forall in Hok'. destruct (Hok' _ A2) as (_ & _ & _ & K4). cbn [fst snd] in K4.
     destruct (K4 A1) as (_ & _ & _ & V4). rewrite <- A3. apply V4. assumption.
 Qed.
+
+(* ------------------------------------------------------------------------------------- *)
+(* the search over the queues of several segments, seen from the segment it picks          *)
+(* ------------------------------------------------------------------------------------- *)
+
+Lemma t_find_in_queue_proj segs count suit sid sg q :
+  seg_lookup segs sid = Some sg ->
+  (forall idx, t_find_in_queue segs count suit q = Some (sid, idx) ->
+     find_in_queue (entries sg) count (fun _ => suit sid) (proj_queue sid q) = Some idx) /\
+  (t_find_in_queue segs count suit q = None ->
+     find_in_queue (entries sg) count (fun _ => suit sid) (proj_queue sid q) = None).
+Proof.
+  intros Hl. induction q as [|[s i] r [IH1 IH2]]; cbn [t_find_in_queue].
+  - split; [discriminate|reflexivity].
+  - unfold proj_queue in *. cbn [filter fst]. destruct (s =? sid) eqn:Es.
+    + apply N.eqb_eq in Es. subst s. rewrite Hl. cbn [map snd find_in_queue].
+      destruct ((count <=? slice_count (get (entries sg) i)) && suit sid) eqn:Et.
+      * split; [intros idx H; inversion H; reflexivity|discriminate].
+      * split; assumption.
+    + apply N.eqb_neq in Es. destruct (seg_lookup segs s) as [sg'|].
+      * destruct ((count <=? slice_count (get (entries sg') i)) && suit s).
+        -- split; [intros idx H; inversion H; congruence|discriminate].
+        -- split; assumption.
+      * split; assumption.
+Qed.
+
+Lemma t_find_bins_proj segs count suit sid sg idx :
+  seg_lookup segs sid = Some sg ->
+  forall tqs b0, t_find_bins segs count suit tqs = Some (sid, idx) ->
+  exists b, find_bins (entries sg) count (fun _ => suit sid) (proj_queues sid tqs) b0 = Some (b, idx).
+Proof.
+  intros Hl. induction tqs as [|q r IH]; intros b0; cbn [t_find_bins]; [discriminate|].
+  destruct (t_find_in_queue_proj segs count suit sid sg q Hl) as (P1 & P2).
+  unfold proj_queues. cbn [map find_bins].
+  destruct (t_find_in_queue segs count suit q) as [x|] eqn:E.
+  - intros H. inversion H; subst x. rewrite (P1 idx eq_refl). exists b0. reflexivity.
+  - intros H. rewrite (P2 eq_refl). apply (IH (b0 + 1) H).
+Qed.
+
+(* the (segment, slice) found by the search over all queues is the slice the search finds in that
+   segment's own queues *)
+Theorem t_find_proj segs tqs count suit sid idx sg :
+  t_find segs tqs count suit = Some (sid, idx) -> seg_lookup segs sid = Some sg ->
+  exists b, find_span (sg, proj_queues sid tqs) count (fun _ => suit sid) = Some (b, idx).
+Proof.
+  unfold t_find, find_span. intros H Hl.
+  unfold proj_queues. rewrite firstn_map. rewrite skipn_map.
+  apply (t_find_bins_proj segs _ suit sid sg idx Hl _ _ H).
+Qed.
